@@ -422,6 +422,11 @@ func timedCopy(clientAddr net.Addr, clientConn net.PacketConn, targetConn *natco
 			}
 
 			debugUDPAddr(l, "Got response.", clientAddr, slog.Any("target", raddr))
+			// The SOCKS address cannot carry an IPv6 zone ("fe80::1%eth0"). With the zone, ParseAddr
+			// encodes the host as a domain name that does not fit in the space reserved for the header.
+			if udpAddr, ok := raddr.(*net.UDPAddr); ok && udpAddr.Zone != "" {
+				raddr = &net.UDPAddr{IP: udpAddr.IP, Port: udpAddr.Port}
+			}
 			srcAddr := socks.ParseAddr(raddr.String())
 			addrStart := bodyStart - len(srcAddr)
 			// `plainTextBuf` concatenates the SOCKS address and body:
